@@ -40,10 +40,10 @@ def faults():
         return BO
 
     def child_with_bundle(B):
-        L = E(("a", 2), ("b", 1))
+        L = E(("a", 2), ("b", 1))()
         C = h.Module(name="CWB")
         C.q = B(port=True)
-        C.l = L()(a=C.q.x, b=C.q.y)
+        C.l = L(a=C.q.x, b=C.q.y)
         return C
 
     def base():
@@ -52,7 +52,7 @@ def faults():
         m.s2 = h.Signal(width=2)
         m.s4 = h.Signal(width=4)
         return m
-    L = lambda: E(("a", 2), ("b", 1))
+    L = lambda: E(("a", 2), ("b", 1))()      # an ExternalModuleCall (no parameters): calling it makes an Instance
     # ---- width mismatches
     conns = {
         "scalar-to-bus": lambda m: dict(a=m.s1, b=m.s1),
@@ -61,7 +61,7 @@ def faults():
         "slice-too-narrow": lambda m: dict(a=m.s4[0], b=m.s1),
         "concat-too-wide": lambda m: dict(a=h.Concat(m.s2, m.s1), b=m.s1),
         "concat-too-narrow": lambda m: dict(a=h.Concat(m.s1), b=m.s1),
-        "strided-slice-width": lambda m: dict(a=m.s4[::3], b=m.s2[::2]),
+        "strided-slice-width": lambda m: dict(a=m.s4[::3], b=m.s4[::2]),
     }
     for k, f in conns.items():
         def b(f=f):
@@ -234,6 +234,26 @@ def faults():
         m.i = L()(a=m.s2, b=m.sh)
         return m
     yield ("owner/signal-in-two-modules", own_shared_signal)
+    for order in ("owner-first", "owner-last"):
+        for how in ("signal", "slice", "concat"):
+            def own_sibling(order=order, how=how):
+                owner = h.Module(name="OwnerSib")
+                owner.s2 = h.Signal(width=2)
+                owner.s1 = h.Signal()
+                owner.i = L()(a=owner.s2, b=owner.s1)
+                thief = h.Module(name="ThiefSib")
+                thief.t1 = h.Signal()
+                conn = {"signal": owner.s2, "slice": owner.s2[0:2], "concat": h.Concat(owner.s1, owner.s1)}[how]
+                thief.i = L()(a=conn, b=thief.t1)
+                m = base()
+                if order == "owner-first":
+                    m.o = owner()
+                    m.t = thief()
+                else:
+                    m.t = thief()
+                    m.o = owner()
+                return m
+            yield (f"owner/sibling-module-signal/{order}/{how}", own_sibling)
     # ---- no-connect referenced elsewhere
     def nc_ref():
         m = base()
@@ -320,6 +340,7 @@ def check_fault(case):
     try:
         top = build()
     except (ValueError, TypeError, RuntimeError):
+        check_fault.at_construction = getattr(check_fault, "at_construction", 0) + 1
         return None       # rejected at construction time: fine
     try:
         if entry == "to_proto":
@@ -347,12 +368,17 @@ def run(ctx):
     from contracts import c_checkers as ck
     ctx.verify(ck.engine(), ck.VERIFY)
     ck.pass_list_obligations(ctx)
+    check_fault.at_construction = 0
     ctx.run_bounded("fault-enumeration", fault_cases(), check_fault,
                     rule="13 fault classes of the statement planted on scalar/bus/slice/concat/port-reference/bundle/"
                          "anonymous-bundle/array/pair connections of a base module; each tried as the top module and "
                          "one and two hierarchy levels deep; each through to_proto, elaborate and netlist; distinct = "
                          "(fault, site, entry point); all non-trivial",
                     bound="single faults, depth<=2", key_of=lambda c: (c[0], c[1]))
+    ctx.bounded[-1]["rejected_at_construction"] = check_fault.at_construction
+    if check_fault.at_construction * 4 > ctx.bounded[-1]["evaluations"]:
+        ctx.checker_errors.append(f"{check_fault.at_construction} of {ctx.bounded[-1]['evaluations']} faulted designs "
+                                  f"were refused while being built: the fault family does not reach the elaborator")
     return INFO
 
 
